@@ -59,9 +59,20 @@ def exCfg : Cfg := { prog := fun t => if t = 0 then [.doK 0] else if t = 1 then 
 def exTrace : List (Nat × Event) :=
   [(0, .start), (0, .doCall 0), (1, .start), (1, .doCall 0), (1, .mapLoad 0 false), (0, .mapLoad 0 false),
    (0, .mapLoadOrStore 0 false), (0, .atomicLoad 0 0), (1, .mapLoadOrStore 0 true), (0, .lock 0), (0, .atomicLoad 0 0),
-   (0, .fEnter 0), (1, .atomicLoad 0 0), (0, .fExit 0 ⟨0, 1⟩), (0, .write 0), (0, .atomicStore 0 1), (0, .unlock 0),
+   (0, .fEnter 0), (1, .atomicLoad 0 0), (0, .fExit 0 (some ⟨0, 1⟩)), (0, .write 0), (0, .atomicStore 0 1), (0, .unlock 0),
    (0, .doReturn 0 (some ⟨0, 1⟩)), (0, .exit), (1, .lock 0), (1, .atomicLoad 0 1), (1, .unlock 0),
    (1, .doReturn 0 (some ⟨0, 1⟩)), (1, .getCall 0), (1, .mapLoad 0 true), (1, .atomicLoad 0 1),
    (1, .getReturn 0 (some ⟨0, 1⟩)), (1, .exit)]
+
+/-- a nil key: goroutine 0 runs `Do(0); Do(0)` with an f that returns nil, goroutine 1 runs `Get(0)` -/
+def exNilCfg : Cfg :=
+  { prog := fun t => if t = 0 then [.doK 0, .doK 0] else if t = 1 then [.getK 0] else [], nilKey := fun k => k == 0 }
+
+/-- a complete trace of the instrumented package (`cache n0;n0|g0`, goroutine 0 first) with the internal write step -/
+def exNilTrace : List (Nat × Event) :=
+  [(0, .start), (0, .doCall 0), (0, .mapLoad 0 false), (0, .mapLoadOrStore 0 false), (0, .atomicLoad 0 0), (0, .lock 0),
+   (0, .atomicLoad 0 0), (0, .fEnter 0), (0, .fExit 0 none), (0, .write 0), (0, .atomicStore 0 1), (0, .unlock 0),
+   (0, .doReturn 0 none), (0, .doCall 0), (0, .mapLoad 0 true), (0, .atomicLoad 0 1), (0, .doReturn 0 none), (0, .exit),
+   (1, .start), (1, .getCall 0), (1, .mapLoad 0 true), (1, .atomicLoad 0 1), (1, .getReturn 0 none), (1, .exit)]
 
 end GIV.ParCache
